@@ -15,7 +15,7 @@ import ast
 from ..core import AnalysisError, norm, loc, walk_no_nested, attr_chain, call_name, Record
 from ..cfg import CFG
 from ..core import func_params
-from ..normalize import inline, local_env, expand, canon, ctext, conjuncts, branch_values, Unknown, _enclosing
+from ..normalize import clone, _replace_node, inline, local_env, expand, canon, ctext, conjuncts, branch_values, Unknown, _enclosing
 from .. import flow
 from . import c02
 
@@ -221,34 +221,106 @@ def run(prog, rep):
     ni = [n for n in ast.walk(tv) if isinstance(n, ast.If) and isinstance(n.test, ast.Compare) and
           '.num_instances' in ast.unparse(n.test) and 'NO_LIMIT' not in ast.unparse(n.test)]
     rep.instance('R4', f'Topology.validate: {[norm(n.test, 100) for n in ni]}')
-    if not ni or not (ast.unparse(ni[0].test.left) == 'count' and isinstance(ni[0].test.ops[0], ast.Gt)
+    def _is_site_count(e, at):
+        # the compared quantity is the per-site tally: the value variable of a loop over the items/values of a dictionary
+        # that is incremented per service (or that dictionary indexed by the key variable of a loop over it)
+        if isinstance(e, ast.Subscript) and isinstance(e.value, ast.Name) and isinstance(e.slice, ast.Name):
+            for l in [p_ for p_ in _ancestors(at, tv) if isinstance(p_, ast.For)]:
+                it = l.iter
+                if isinstance(it, ast.Call) and isinstance(it.func, ast.Attribute) and it.func.attr == 'keys':
+                    it = it.func.value
+                if isinstance(it, ast.Name) and it.id == e.value.id and isinstance(l.target, ast.Name) and l.target.id == e.slice.id:
+                    d = it.id
+                    return any(isinstance(a, ast.AugAssign) and isinstance(a.op, ast.Add) and isinstance(a.target, ast.Subscript) and
+                               isinstance(a.target.value, ast.Name) and a.target.value.id == d for a in ast.walk(tv))
+            return False
+        if not isinstance(e, ast.Name):
+            return False
+        for l in [p_ for p_ in _ancestors(at, tv) if isinstance(p_, ast.For)]:
+            it = l.iter
+            if not (isinstance(it, ast.Call) and isinstance(it.func, ast.Attribute) and it.func.attr in ('items', 'values') and
+                    isinstance(it.func.value, ast.Name)):
+                continue
+            tgt = l.target
+            val = tgt.elts[1] if it.func.attr == 'items' and isinstance(tgt, ast.Tuple) and len(tgt.elts) == 2 else (tgt if it.func.attr == 'values' else None)
+            if isinstance(val, ast.Name) and val.id == e.id:
+                d = it.func.value.id
+                return any(isinstance(a, ast.AugAssign) and isinstance(a.op, ast.Add) and isinstance(a.target, ast.Subscript) and
+                           isinstance(a.target.value, ast.Name) and a.target.value.id == d for a in ast.walk(tv))
+        return False
+    if not ni or not (_is_site_count(expand(ni[0].test.left, local_env(tv)), ni[0]) and isinstance(ni[0].test.ops[0], ast.Gt)
                       and any(isinstance(x, ast.Raise) for x in ni[0].body)):
         rep.violation('R4', loc(topo.module, tv), 'Topology.validate', 'num_instances comparison',
                       'the per-site instance count must be rejected when count > num_instances')
     # required / forbidden property tests
-    for cls, fn, sv in ((uns, vc, 'ns_sliver'), (unode, nvc, 'node_sliver')):
+    def _table_field(e, env):
+        """Which column of a constraint table the expression resolves to (locals expanded), or None."""
+        e = expand(e, env)
+        if isinstance(e, ast.Attribute) and 'Constraints' in ast.unparse(e.value):
+            return e.attr
+        return None
+    for cls, fn in ((uns, vc), (unode, nvc)):
         fq = f'{cls.name}.validate_constraints'
+        fenv = local_env(fn)
+        seen_cols = set()
         for n in walk_no_nested(fn):
-            if isinstance(n, ast.For) and ast.unparse(n.iter) in ('req_props', 'forb_props'):
+            col = _table_field(n.iter, fenv) if isinstance(n, ast.For) else None
+            if col in ('required_properties', 'forbidden_properties') and isinstance(n.target, ast.Name):
+                seen_cols.add(col)
                 var = n.target.id
                 ifs = [x for x in n.body if isinstance(x, ast.If)]
-                rep.instance('R4', f'{fq}: {ast.unparse(n.iter)}: {norm(ifs[0].test, 110) if ifs else "?"}')
+                rep.instance('R4', f'{fq}: {col}: {norm(ifs[0].test, 110) if ifs else "?"}')
                 if len(ifs) != 1 or not any(isinstance(x, ast.Raise) for x in ifs[0].body):
-                    rep.violation('R4', loc(cls.module, n), fq, f'{ast.unparse(n.iter)} loop does not raise',
+                    rep.violation('R4', loc(cls.module, n), fq, f'{col} loop does not raise',
                                   'the property constraint loop must raise on a violation')
                     continue
-                ok = cond_rejects(ifs[0].test, var, sv, required=(ast.unparse(n.iter) == 'req_props'))
+                test_ = ifs[0].test
+                # a local predicate (nested def / lambda) applied to the loop variable stands for its returned expression
+                for c in [c for c in ast.walk(test_) if isinstance(c, ast.Call) and isinstance(c.func, ast.Name) and len(c.args) == 1 and
+                          isinstance(c.args[0], ast.Name) and c.args[0].id == var and not c.keywords]:
+                    for d in ast.walk(fn):
+                        body_ = None
+                        if isinstance(d, ast.FunctionDef) and d.name == c.func.id and len(d.args.args) == 1 and len(d.body) >= 1 and \
+                                isinstance(d.body[-1], ast.Return) and d.body[-1].value is not None and \
+                                all(isinstance(x, ast.Expr) and isinstance(x.value, ast.Constant) for x in d.body[:-1]):
+                            body_, par_ = d.body[-1].value, d.args.args[0].arg
+                        elif isinstance(d, ast.Assign) and isinstance(d.value, ast.Lambda) and any(isinstance(t, ast.Name) and t.id == c.func.id for t in d.targets) \
+                                and len(d.value.args.args) == 1:
+                            body_, par_ = d.value.body, d.value.args.args[0].arg
+                        if body_ is not None:
+                            sub = clone(body_)
+                            for x in ast.walk(sub):
+                                if isinstance(x, ast.Name) and x.id == par_:
+                                    x.id = var
+                            test_ = sub if c is test_ else _replace_node(test_, c, sub)
+                            break
+                named = [c for c in ast.walk(test_) if isinstance(c, ast.Call) and call_name(c) in ('get_property', 'property_exists')]
+                ok = bool(named) and all(c.args and isinstance(c.args[0], ast.Name) and c.args[0].id == var for c in named) and \
+                    cond_rejects(test_, var, None, required=(col == 'required_properties'))
                 if not ok:
-                    kind = 'required' if ast.unparse(n.iter) == 'req_props' else 'forbidden'
-                    rep.violation('R4', loc(cls.module, ifs[0]), fq, norm(ifs[0].test, 140),
+                    kind = 'required' if col == 'required_properties' else 'forbidden'
+                    rep.violation('R4', loc(cls.module, ifs[0]), fq, f'{kind}-property test',
                                   f'the {kind}-property test must reject ' +
-                                  ('when the property is missing or falsy' if kind == 'required' else 'when the property is set'))
-        # the sliver validated is rebuilt from the graph with the reader of this kind
-    # required interface types
-    rit = [n for n in ast.walk(vc) if isinstance(n, ast.If) and 'rit' in ast.unparse(n.test) and 'i.type' in ast.unparse(n.test)]
-    rep.instance('R4', f'validate_constraints: interface type test {[norm(n.test) for n in rit]}')
-    if not rit or not any(isinstance(x, ast.Raise) for x in rit[0].body) or \
-            ast.unparse(rit[0].test).replace(' ', '') not in ('noti.typeinrit', 'i.typenotinrit'):
+                                  ('when the property is missing or falsy' if kind == 'required' else 'when the property is set') +
+                                  f' (found `{norm(ifs[0].test, 120)}`)')
+        for col in ('required_properties', 'forbidden_properties'):
+            if col not in seen_cols:
+                rep.violation('R4', loc(cls.module, fn), fq, f'{col} loop missing', f'no loop over the {col} column of the constraint table rejects a violation')
+    # required interface types: every interface handed in is rejected unless its type is in the column
+    venv = local_env(vc)
+    rit_ok = False
+    rit_desc = []
+    for l in [n for n in walk_no_nested(vc) if isinstance(n, ast.For) and isinstance(n.target, ast.Name)]:
+        if ast.unparse(expand(l.iter, venv)) not in func_params(vc):
+            continue
+        for t in [x for x in ast.walk(l) if isinstance(x, ast.If) and any(isinstance(r_, ast.Raise) for r_ in x.body)]:
+            tc = canon(t.test)
+            rit_desc.append(norm(tc, 80))
+            if isinstance(tc, ast.Compare) and isinstance(tc.ops[0], ast.NotIn) and ast.unparse(tc.left) == f'{l.target.id}.type' and \
+                    _table_field(tc.comparators[0], venv) == 'required_interface_types':
+                rit_ok = True
+    rep.instance('R4', f'validate_constraints: interface type test {rit_desc}')
+    if not rit_ok:
         rep.violation('R4', loc(vmod, vc), 'NetworkService.validate_constraints', 'required_interface_types test',
                       'an interface whose type is not among the required interface types must be rejected')
 
@@ -457,6 +529,8 @@ def cond_rejects(test, var, sv, required):
             return None if v is None else (not v)
         if isinstance(e, ast.Call):
             cn = call_name(e)
+            if isinstance(e.func, ast.Name) and e.func.id == 'bool' and len(e.args) == 1:
+                return ev(e.args[0], exists, truthy)
             if cn == 'property_exists':
                 return exists
             if cn == 'get_property':
@@ -507,6 +581,8 @@ def _short_circuit(e, exists, truthy, ev):
     if isinstance(e, ast.UnaryOp) and isinstance(e.op, ast.Not):
         r = _short_circuit(e.operand, exists, truthy, ev)
         return None if r is None else (not r)
+    if isinstance(e, ast.Call) and isinstance(e.func, ast.Name) and e.func.id == 'bool' and len(e.args) == 1 and not e.keywords:
+        return _short_circuit(e.args[0], exists, truthy, ev)
     return ev(e, exists, truthy)
 
 
